@@ -700,7 +700,8 @@ def derived_alignment(ctx, mod, rule='C01-D5'):
                       'an input without the chain contributes zeros(len(merged)) defined on the merged list',
                       'defaults for a missing chain are inconsistent: %s / %s / %s' % (unparse(d0), unparse(d1), unparse(d2)), mod.loc(c))
             sf = c.args[4]
-            okf = k0[2] + ".split('|')[0]" in unparse(sf) and '_compute_scalefactor_missing_rep(%s)' % k0[0] in unparse(sf)
+            # (the helper may have been hoisted to module level and then takes the merged lists as a second argument)
+            okf = k0[2] + ".split('|')[0]" in unparse(sf) and ('_compute_scalefactor_missing_rep(%s)' % k0[0] in unparse(sf) or '_compute_scalefactor_missing_rep(%s, %s)' % (k0[0], M) in unparse(sf))
             ctx.check(rule, 'obs.py:derived_observable#scalefactor-key[array_mode]', okf,
                       'scale factor of the same object and ensemble', 'scale factor looked up with %s' % unparse(sf), mod.loc(c))
 
